@@ -73,6 +73,7 @@ def shards(tier):
         out.append({'kind': 'rawput', 'prog': i})
         out.append({'kind': 'coords', 'prog': i})
         out.append({'kind': 'rawto', 'prog': i})
+    out += [{'kind': 'rootkind', 'prog': 0, 'root': r} for r in range(len(ROOTS))]
     d2 = (1, 3, 8, 14) if tier == 'quick' else range(len(PROGRAMS))
     for i in d2:
         p = PROGRAMS[i]
@@ -81,11 +82,18 @@ def shards(tier):
     return out
 
 
-def judge(root, old, pre_dump, o1, o2, text, cid, res, params, rep, exc):
+def judge(root, old, pre_dump, o1, o2, text, cid, res, params, rep, exc, kind=None):
     new = old[:o1] + text + old[o2:]
     try:
-        want = ast.parse(new)
-        valid = True
+        if kind is None:
+            want = ast.parse(new)
+        elif kind == 'stmt':  # a root that is one statement: the new source has to be exactly one statement (of whatever kind)
+            m = ast.parse(new)
+            want = m.body[0] if len(m.body) == 1 else None
+        else:  # a root that is one expression: valid when CPython parses it as exactly that inside parentheses (C05's embedding oracle)
+            from .c05 import embed_valid
+            want = embed_valid(new, 'expr')
+        valid = want is not None
     except (SyntaxError, ValueError, RecursionError, MemoryError):
         want, valid = None, False
     res.traces += 1
@@ -121,7 +129,11 @@ def judge(root, old, pre_dump, o1, o2, text, cid, res, params, rep, exc):
         res.outcomes['invalid-accepted'] += 1
         res.fail(cid, 'invalid-source-accepted', f'{desc}\ntree={O.dump(root.a)[:300]}', params, rep)
         return None
-    if got != O.dump_pos(want):
+    if kind == 'expr':  # the embedded reference has the wrapper's positions: structure only
+        if O.dump(root.a) != O.dump(want):
+            res.fail(cid, 'tree-differs-from-full-parse', f'{desc}\n' + O.first_diff(O.dump(root.a), O.dump(want)), params, rep)
+            return None
+    elif got != O.dump_pos(want):
         res.outcomes['tree-mismatch'] += 1
         sym = 'tree-differs-from-full-parse' if O.dump(root.a) != O.dump(want) else 'positions-differ-from-full-parse'
         res.fail(cid, sym, f'{desc}\n' + O.first_diff(got, O.dump_pos(want)), params, rep)
@@ -181,6 +193,33 @@ def run_rect(fst, pi, o1, o2, text, res, first=None):
     judge(root, old, pre, o1, o2, text, cid, res, params, rep, exc)
     res.sample({'program': old, 'rect': [o1, o2], 'text': text, 'raised': repr(exc) if exc else None})
     return True
+
+
+ROOTS = [('a = 1', 'stmt'), ('if a:\n    b', 'stmt'), ('f(a, b)', 'expr'), ('[a, b]', 'expr'), ('x', 'expr'), ('a + b', 'expr')]
+
+
+def run_rootkind(fst, ri, tier, res):
+    """Trees whose root is a single statement or expression: a raw source edit succeeds exactly when the new whole source is valid for
+    that kind of root (a second statement, or something that is no longer one expression, is not)."""
+    src, mode = ROOTS[ri]
+    kind = fst.FST(src, mode).a.__class__.__name__
+    for o1 in range(len(src) + 1):
+        for o2 in range(o1, min(len(src), o1 + 3) + 1):
+            for text in TEXTS + ['\nb = 2', '; c', ', d', ' = e']:
+                if o1 == o2 and not text:
+                    continue
+                root = fst.FST(src, mode)
+                pre = O.dump_pos(root.a)
+                cid = f'C10/root{ri}:{kind}/[{o1}:{o2}]<-{text!r}'
+                rep = {'root': ri}
+                res.evals += 1
+                res.transitions += 1
+                try:
+                    exc = one_edit(fst, root, src, o1, o2, text)
+                except CaseTimeout:
+                    res.fail(cid, 'hang', '', {'rootkind': kind}, rep)
+                    continue
+                judge(root, src, pre, o1, o2, text, cid, res, {'rootkind': kind, 'nonmodule_root': True}, rep, exc, kind=mode)
 
 
 def run_rawto(fst, pi, src, tier, res):
@@ -343,6 +382,8 @@ def run_shard(desc, tier, res):
         run_coords(fst, pi, src, tier, res)
     elif desc['kind'] == 'rawto':
         run_rawto(fst, pi, src, tier, res)
+    elif desc['kind'] == 'rootkind':
+        run_rootkind(fst, desc['root'], tier, res)
     elif desc['kind'] == 'reparse':
         tree = ast.parse(src)
         for path, node in O.iter_nodes(tree):
@@ -438,6 +479,9 @@ def run_shard(desc, tier, res):
 
 def replay(rep, res):
     import fst
+    if 'root' in rep:
+        run_rootkind(fst, rep['root'], 'quick', res)
+        return
     if rep.get('rawto'):
         run_rawto(fst, rep['prog'], PROGRAMS[rep['prog']], 'quick', res)
         return
